@@ -337,7 +337,7 @@ func reportViolation(eng core.Engine, o WorkerOpts, run, seed uint64, res core.R
 		}
 		return r.Viol != nil && r.Viol.Fingerprint() == want, used
 	}
-	min, st := shrink.Minimise(tp.Vals, test, 20000, 45*time.Second)
+	min, st := shrink.Minimise(tp.Vals, test, 20000, 40*time.Second)
 	rf, tf := ReplayVals(eng, min, true)
 	if rf.Viol == nil || rf.Viol.Fingerprint() != want {
 		// fall back to the unshrunk tape
